@@ -61,8 +61,10 @@ func c11Patterns(tier string) []string {
 		}
 	}
 	if tier == "thorough" {
-		for _, s1 := range small {
-			for _, s2 := range small {
+		// three-part patterns over a sub-list (the full cube is ~700k patterns, half an hour of queries)
+		small3 := []string{"a", "ab", "a*", "[ab]", "(a)", "a|b"}
+		for _, s1 := range small3 {
+			for _, s2 := range small3 {
 				for _, t := range terms {
 					add(s1 + t + s2)
 					add(s1 + "|" + t + "|" + s2)
